@@ -61,6 +61,7 @@ package keeper
 //@ nopanic
 //@ ensures C14/released-equals-newly-vested: err == nil ==> bal(ctx, unbech32(msg.Sender), d) - old(bal(ctx, unbech32(msg.Sender), d)) == old(sumOver(k.GetCommitments(ctx, unbech32(msg.Sender)).VestingTokens, v, ite(v.Denom == d, max(vestedAt(v, blockHeight(ctx)) - v.ClaimedAmount, 0), 0)))
 //@ ensures C14/released-plus-outstanding-conserved: err == nil ==> bal(ctx, unbech32(msg.Sender), d) + outstanding(k.GetCommitments(ctx, unbech32(msg.Sender)), d) == old(bal(ctx, unbech32(msg.Sender), d) + outstanding(k.GetCommitments(ctx, unbech32(msg.Sender)), d))
+//@ mints C15/vesting-release-mints-only-the-native-token: d == ptypes.Elys
 //@ ensures C14/only-elys-minted: err == nil ==> supply(ctx, d) - old(supply(ctx, d)) == ite(d == ptypes.Elys, bal(ctx, unbech32(msg.Sender), d) - old(bal(ctx, unbech32(msg.Sender), d)), 0)
 
 //@ func (msgServer).CancelVest
@@ -78,6 +79,7 @@ package keeper
 //@ requires unbech32(msg.Creator) != modAddr("commitment")
 //@ letold info := fst(k.GetVestingInfo(goCtx, msg.Denom))
 //@ ensures C14/vest-now-pays-quotient: err == nil ==> bal(goCtx, unbech32(msg.Creator), d) - old(bal(goCtx, unbech32(msg.Creator), d)) == ite(d == info.VestingDenom, msg.Amount / info.VestNowFactor, 0)
+//@ mints C15/vest-now-mints-only-the-native-token: d == ptypes.Elys
 //@ ensures C14/vest-now-mints-only-elys: err == nil ==> supply(goCtx, d) - old(supply(goCtx, d)) == ite(d == ptypes.Elys && info.VestingDenom == ptypes.Elys, msg.Amount / info.VestNowFactor, 0)
 //@ ensures C14/vest-now-consumes-claimed: err == nil ==> amt(k.GetCommitments(goCtx, unbech32(msg.Creator)).Claimed, d) == old(amt(k.GetCommitments(goCtx, unbech32(msg.Creator)).Claimed, d)) - ite(d == msg.Denom, msg.Amount, 0)
 
@@ -90,3 +92,18 @@ package keeper
 //@ ensures C14/vest-adds-exactly: err == nil ==> outstanding(k.GetCommitments(ctx, creator), d) == old(outstanding(k.GetCommitments(ctx, creator), d)) + ite(d == info.VestingDenom, amount, 0)
 //@ ensures C14/vest-consumes-claimed: err == nil ==> amt(k.GetCommitments(ctx, creator).Claimed, d) == old(amt(k.GetCommitments(ctx, creator).Claimed, d)) - ite(d == denom, amount, 0)
 //@ ensures C14/vest-touches-no-bank: err == nil ==> bal(ctx, creator, d) == old(bal(ctx, creator, d)) && supply(ctx, d) == old(supply(ctx, d))
+
+// ---- C15: supply ---------------------------------------------------------------------------------
+// MintCoins / BurnCoins forward what is left of their coins argument after the ledger-only
+// denoms (Eden, EdenB) have been booked on the commitment ledger: their callers are the sites.
+//@ func (Keeper).MintCoins
+//@ forall d Str
+//@ supply-wrapper
+//@ mints C15/forwards-argument-without-ledger-denoms: amt(amt, d) != 0 && d != ptypes.Eden && d != ptypes.EdenB
+//@ modifies module:commitment, bank
+
+//@ func (Keeper).BurnCoins
+//@ forall d Str
+//@ supply-wrapper
+//@ burns C15/forwards-argument-without-ledger-denoms: amt(amt, d) != 0 && d != ptypes.Eden && d != ptypes.EdenB
+//@ modifies module:commitment, bank
